@@ -71,16 +71,20 @@ func (r *Eval) Run(ctx context.Context, script []byte) (Object, *Bytecode, error
 	}
 
 	r.VM.modulesCache = r.ModulesCache
-	ret, err := r.run(ctx)
+	ret, ran, err := r.run(ctx)
 	r.ModulesCache = r.VM.modulesCache
-	// A script with fewer locals than values given so far keeps the rest:
-	// arguments of NewEval not yet bound by a param statement.
-	prev := r.Locals
-	locals := r.VM.GetLocals(nil)
-	if len(prev) > len(locals) {
-		locals = append(locals, prev[len(locals):]...)
+	if ran {
+		// A script with fewer locals than values given so far keeps the rest:
+		// arguments of NewEval not yet bound by a param statement.
+		prev := r.Locals
+		locals := r.VM.GetLocals(nil)
+		if len(prev) > len(locals) {
+			locals = append(locals, prev[len(locals):]...)
+		}
+		r.Locals = locals
 	}
-	r.Locals = locals
+	// else: the context was done before the script started, the values of
+	// the earlier scripts are kept as they are.
 	r.VM.Clear()
 
 	if err != nil {
@@ -89,7 +93,7 @@ func (r *Eval) Run(ctx context.Context, script []byte) (Object, *Bytecode, error
 	return ret, bytecode, nil
 }
 
-func (r *Eval) run(ctx context.Context) (ret Object, err error) {
+func (r *Eval) run(ctx context.Context) (ret Object, ran bool, err error) {
 	ret = Undefined
 	doneCh := make(chan struct{})
 	// Always check whether context is done before running VM because
@@ -100,6 +104,7 @@ func (r *Eval) run(ctx context.Context) (ret Object, err error) {
 		r.VM.Abort()
 		err = ctx.Err()
 	default:
+		ran = true
 		go func() {
 			defer close(doneCh)
 			ret, err = r.VM.Run(r.Globals, r.Locals...)
